@@ -1,7 +1,77 @@
-(* C17 — specification side: what is observed of a run, and the conditions S every observation must meet. *)
+(* C17 — specification side: the vocabulary in which the property is stated (what was sent, what was
+   received, by whom, in which order; who is inside which with-mutex-lock; what an increment is), what is
+   observed of a run, and the conditions every observation must meet. *)
 From C17 Require Import Model.
 
-(* what the harness can see of one run of a program on the implementation *)
+(* ---- lists ---- *)
+Inductive subseq {A} : list A -> list A -> Prop :=
+| sub_nil : forall l, subseq [] l
+| sub_cons : forall x a b, subseq a b -> subseq (x :: a) (x :: b)
+| sub_skip : forall x a b, subseq a b -> subseq a (x :: b).
+
+(* ---- channels: histories ---- *)
+Definition items (l : list rcv) : list entry :=
+  flat_map (fun r => match r_item r with Some e => [e] | None => [] end) l.
+Definition rcv_val (r : rcv) : val := match r_item r with Some e => e_val e | None => None end.
+Definition by_ (i : nat) (l : list rcv) : list rcv := filter (fun r => Nat.eqb (r_by r) i) l.
+Definition from_ (j : nat) (l : list entry) : list entry := filter (fun e => Nat.eqb (e_from e) j) l.
+(* what routine's log says it received on channel c, in order *)
+Definition pops (c : nat) (l : list ev) : list val :=
+  flat_map (fun e => match e with EvPop c' v => if Nat.eqb c' c then [v] else [] | _ => [] end) l.
+
+(* ---- mutexes: who is inside a with-mutex-lock on m ---- *)
+Definition locks_of (st : list frame) : list nat :=
+  flat_map (fun f => match fk f with KLock m => [m] | _ => [] end) st.
+Definition inside (s : state) (i m : nat) : Prop :=
+  exists r, nth_error (rs s) i = Some r /\ In m (locks_of (stk r)).
+
+(* ---- counters ---- *)
+(* the critical section (with-mutex-lock m (setq acc <x>) (setf <x> (+ acc k))) *)
+Definition incr_body (x : nat) (body : list op) : bool :=
+  match body with
+  | [OLoad x1; OStore x2 (ZAccPlus _)] => Nat.eqb x1 x && Nat.eqb x2 x
+  | _ => false
+  end.
+(* every access to cell x in the operation is such a critical section on mutex m *)
+Fixpoint ok_op (x m : nat) (o : op) {struct o} : bool :=
+  let fix all (l : list op) : bool := match l with [] => true | o' :: l' => ok_op x m o' && all l' end in
+  match o with
+  | OLock m' body => (Nat.eqb m' m && incr_body x body) || all body
+  | OCatch body => all body
+  | OLoad x' => negb (Nat.eqb x' x)
+  | OStore x' _ => negb (Nat.eqb x' x)
+  | _ => true
+  end.
+Definition ok_ops (x m : nat) (l : list op) : bool := forallb (ok_op x m) l.
+Definition guarded (p : prog) (x m : nat) : bool := forallb (ok_ops x m) (p_code p).
+
+(* the sum of the increments of x written in the operation *)
+Fixpoint incs_op (x : nat) (o : op) {struct o} : Z :=
+  let fix sum (l : list op) : Z := match l with [] => 0%Z | o' :: l' => (incs_op x o' + sum l')%Z end in
+  match o with
+  | OStore x' (ZAccPlus k) => if Nat.eqb x' x then k else 0%Z
+  | OLock _ body => sum body
+  | OCatch body => sum body
+  | _ => 0%Z
+  end.
+Definition incs_ops (x : nat) (l : list op) : Z := fold_right (fun o a => (incs_op x o + a)%Z) 0%Z l.
+Definition total_incs (p : prog) (x : nat) : Z := fold_right (fun l a => (incs_ops x l + a)%Z) 0%Z (p_code p).
+
+(* no operation of the program can raise an error: no (error ...), no channel-close (hence no push on /
+   close of a closed channel) *)
+Fixpoint nofail_op (o : op) {struct o} : bool :=
+  let fix all (l : list op) : bool := match l with [] => true | o' :: l' => nofail_op o' && all l' end in
+  match o with
+  | OFail => false
+  | OClose _ => false
+  | OLock _ body => all body
+  | OCatch body => all body
+  | _ => true
+  end.
+Definition nofail_ops (l : list op) : bool := forallb nofail_op l.
+Definition nofail (p : prog) : bool := forallb nofail_ops (p_code p).
+
+(* ---- what the harness can see of one run of a program on the implementation ---- *)
 Record obs := mkO {
   o_crash : bool;                 (* the process died (uncaught error in a routine, Go fatal error) *)
   o_fin : list bool;              (* routine i ran to completion and reported its log *)
